@@ -1,5 +1,5 @@
-CONSTANTS MaxN = 5 MaxSteps = 8
+CONSTANTS MaxN = 5 MaxSteps = 7 MaxK = 3
 SPECIFICATION Spec
-INVARIANTS LenIsRemaining EachItemOnce FrontOrder BackOrder EndsMeet EndOnlyWhenEmpty AllYielded
+INVARIANTS ReturnsWhatIsDue LenIsRemaining EachItemOnce FrontOrder BackOrder EndsMeet EndOnlyWhenEmpty AllConsumed
 PROPERTY Fused
 CHECK_DEADLOCK FALSE
